@@ -1,6 +1,6 @@
 from collections.abc import Callable
 from copy import deepcopy
-from types import EllipsisType, GenericAlias
+from types import EllipsisType, GenericAlias, MappingProxyType
 from typing import (
     Any,
     ClassVar,
@@ -88,6 +88,23 @@ class StateMeta(type):
         state_type.__match_args__ = state_type.__slots__  # pyright: ignore[reportAttributeAccessIssue]
 
         return state_type
+
+
+def _deepcopy_value(
+    value: Any,
+    memo: dict[int, Any] | None,
+) -> Any:
+    # validated mappings are stored as mappingproxy which can't be deep copied directly,
+    # copy their content instead - it becomes read only again when the copy is validated
+    match value:
+        case MappingProxyType():
+            return {key: _deepcopy_value(element, memo) for key, element in value.items()}
+
+        case tuple():
+            return tuple(_deepcopy_value(element, memo) for element in value)
+
+        case _:
+            return deepcopy(value, memo)
 
 
 _types_cache: WeakValueDictionary[
@@ -240,7 +257,7 @@ class State(metaclass=StateMeta):
     ) -> Self:
         copy: Self = self.__class__(
             **{
-                key: deepcopy(
+                key: _deepcopy_value(
                     value,
                     memo,
                 )
